@@ -23,14 +23,14 @@ func init() {
 	register("C05", &Engine{Run: c05Run, Worker: c05Worker, Replay: c05Replay})
 }
 
-var c05PoolQ = []string{"a.js", "b.ts", "zz.js", "src/c.js", "src/sub/g.js", "src/.d.js", "src/.hid/e.js", ".eslintrc.js", ".git/f.js", "lib/h.ts", "A.js", "lnk.js@"}
+var c05PoolQ = []string{"a.js", "b.ts", "zz.js", "src/c.js", "src/sub/g.js", "src/.d.js", "src/.hid/e.js", ".eslintrc.js", ".git/f.js", "lib/h.ts", "A.js", "lnk.js@", "ld@src", "src/v1.0..v1.1.js"}
 var c05PoolT = append(append([]string{}, c05PoolQ...), "0.js", "~.js", "lib/.keep")
 
 var c05PatQ = []string{
 	"*.js", "**/*.js", "src/*", "*/*", "**", "src/**", "**/sub/*", "*.{js,ts}", "s*/*.js", "**/*", "*", "lib/*.ts",
 	"**/g.*", "*.ts", "src/*.js", "**/*.ts", "?.j*", "[a-z].j*", "src/**/*.js", "**/{c,g}.js", "src/*/g.js", ".*", ".git/*", ".*.js", ".git/**",
 }
-var c05PatT = append(append([]string{}, c05PatQ...), "**/.*", "src/.*", "lib/*", "**/src/*", "*/*/*", "zz.*", "**/*.{js,ts}", "*/sub/**", "[!a]*.js")
+var c05PatT = append(append([]string{}, c05PatQ...), "**/.*", "src/.*", "lib/*", "**/src/*", "*/*/*", "zz.*", "**/*.{js,ts}", "*/sub/**", "[!a]*.js", "ld/**", "ld/*.js")
 
 type c05case struct {
 	Mask     int      `json:"mask"`
@@ -66,7 +66,7 @@ func c05Run(c *core.Ctx) bool {
 	// self-test of the reference matcher against doublestar.Match on every (pattern, path)
 	for _, p := range pats {
 		for _, f := range pool {
-			f = strings.TrimSuffix(f, "@")
+			f, _, _ = strings.Cut(f, "@")
 			m, err := doublestar.Match(p, f)
 			if err != nil || m != ref.Match(p, f) {
 				core.Fatal("reference glob matcher disagrees with doublestar.Match on (%q, %q): ref=%v doublestar=%v err=%v", p, f, ref.Match(p, f), m, err)
@@ -83,7 +83,7 @@ func c05Run(c *core.Ctx) bool {
 	cov := map[string]any{
 		"evaluations":         res.Evaluations,
 		"distinct_nontrivial": distinct,
-		"rule":                fmt.Sprintf("every subset of the %d-path pool is materialised as a directory tree (%d trees); one spokfile holds %d glob patterns as dependencies and outputs; the real loader + Run expand them (twice, on fresh SpokFile values) and the public Globs map is compared per pattern with a reference matcher run over a full directory walk. evaluations = (tree, pattern) pairs judged; non-trivial = distinct (tree, pattern) pairs whose reference denotation is non-empty", len(pool), total, len(pats)),
+		"rule":                fmt.Sprintf("every subset of the %d-path pool is materialised as a directory tree (%d trees); one spokfile holds %d glob patterns as dependencies and outputs; the real loader + Run expand them (twice, on fresh SpokFile values) and the public Globs map is compared per pattern with a reference matcher run over a full directory walk (following links to files and to directories); the pool holds a link to a file, a link to a directory and a name containing '..'; the project directory's own name cycles through plain, '[1]', '{old}', '*?' and a blank. evaluations = (tree, pattern) pairs judged; non-trivial = distinct (tree, pattern) pairs whose reference denotation is non-empty", len(pool), total, len(pats)),
 		"samples":             res.Samples,
 		"counters":            res.Counters,
 		"pool":                pool,
@@ -132,7 +132,9 @@ func c05Worker(c *core.Ctx) {
 			continue
 		}
 		// (the project sits below a dot-directory: only the path relative to the spokfile counts as hidden)
-		root := filepath.Join(base, ".dotted.parent", fmt.Sprintf("t%d", mask))
+		// and its own name may hold characters that mean something inside a pattern
+		root := filepath.Join(base, ".dotted.parent", fmt.Sprintf([]string{"t%d", "t[1]%d", "t{old}%d", "t*%d?", "t %d"}[mask%5], mask))
+		res.Seen("project_directory_spellings", []string{"plain", "[1]", "{old}", "*?", "blank"}[mask%5])
 		for _, v := range c05Judge(root, cs, res) {
 			v.Case = core.JSON(cs)
 			res.Violate(v)
@@ -160,10 +162,13 @@ func c05Expand(root, text string) (map[string][]string, error) {
 
 func c05Judge(root string, cs c05case, res *core.ShardResult) (vs []core.Violation) {
 	files := map[string]string{}
-	var links []string
+	var links [][2]string
 	for _, f := range cs.Files {
-		if strings.HasSuffix(f, "@") {
-			links = append(links, strings.TrimSuffix(f, "@"))
+		if name, target, ok := strings.Cut(f, "@"); ok {
+			if target == "" {
+				target = "a.js"
+			}
+			links = append(links, [2]string{name, target})
 			continue
 		}
 		files[f] = "content of " + f
@@ -173,7 +178,9 @@ func c05Judge(root string, cs c05case, res *core.ShardResult) (vs []core.Violati
 		core.Fatal("c05: %v", err)
 	}
 	for _, l := range links {
-		_ = os.Symlink("a.js", filepath.Join(root, l)) // dangling whenever a.js is not part of the tree
+		// dangling whenever the target is not part of the tree; "ld" links to the directory src, whose
+		// files are then also reached as ld/...
+		_ = os.Symlink(l[1], filepath.Join(root, l[0]))
 	}
 	text := c05Spokfile(cs.Patterns)
 	_ = os.WriteFile(filepath.Join(root, "spokfile"), []byte(text), 0o644)
